@@ -19,7 +19,9 @@ for patch in sorted(glob.glob(f'{stash}/*/seed_*.patch.diff')):
     except Exception: meta={"property":pid}
     out=f'/verif/seeded/{name}'; os.makedirs(out,exist_ok=True)
     shutil.copy(patch,f'{out}/patch.diff'); shutil.copy(f'{d}/{s}.demo.rs',f'{out}/demo.rs')
-    m={"property":pid,"round":int(rnd),"source":"independent sub-agent given only the property text and a scratch worktree",
+    import re as _re
+    prop = meta.get("property") if _re.fullmatch(r"C\d\d", str(meta.get("property",""))) else pid
+    m={"property":prop,"also_breaks":meta.get("also_breaks"),"round":int(rnd),"source":"independent sub-agent given only the property text and a scratch worktree",
        "summary":meta.get("summary"),"needs_to_manifest":meta.get("needs_to_manifest"),
        "confirmed_here":{"how":"tools/confirm_seed.sh in a scratch worktree outside /repo and /verif","result":[l for l in ctext.splitlines() if l.startswith('demo_without')][0]},
        "quick_checks_reporting_violation":caught,
